@@ -36,6 +36,7 @@ type Gen struct {
 	nameSeq int
 	Kinds   []string // enabled kinds
 	MaxAcct int      // the generator only uses accounts [0,MaxAcct) (0 = all)
+	Ties    bool     // equal stakes and two-candidate parameter votes, so that tallies tie
 }
 
 type Contract struct {
@@ -109,7 +110,7 @@ func (g *Gen) Block(no uint64, n int) []*GTx {
 	if len(kinds) == 0 {
 		kinds = []string{"xfer", "xfer", "xfer", "xfer-new", "xfer-self", "xfer-zero", "xfer-poor", "xfer-all", "badnonce-low", "badnonce-gap",
 			"stake", "stake-small", "unstake", "votebp", "votebp-nostake", "votedao", "name", "name-dup", "name-update", "xfer-name",
-			"deploy", "call-inc", "call-pay", "call-payfail", "call-fail", "call-guarded", "call-nested", "call-default", "feedeleg", "gov-bad"}
+			"deploy", "call-inc", "call-pay", "call-payfail", "call-fail", "call-guarded", "call-nested", "call-default", "feedeleg", "gov-bad", "setowner"}
 	}
 	blocked := map[int]bool{}
 	tries := 0
@@ -164,7 +165,11 @@ func (g *Gen) Block(no uint64, n int) []*GTx {
 		case "stake", "stake-small":
 			sp.Type, sp.To = types.TxType_GOVERNANCE, []byte(types.AergoSystem)
 			sp.Payload = GovPayload("v1stake")
-			sp.Amount = aergo(int64(10000 + g.R.Intn(5000)))
+			// a few fixed amounts so that equal stakes (and therefore tied tallies) are common
+			sp.Amount = aergo([]int64{10000, 10000, 12000, int64(10000 + g.R.Intn(5000))}[g.R.Intn(4)])
+			if g.Ties {
+				sp.Amount = aergo(10000)
+			}
 			if k == "stake-small" {
 				sp.Amount = aergo(int64(1 + g.R.Intn(9000)))
 				exp = "fail"
@@ -196,9 +201,15 @@ func (g *Gen) Block(no uint64, n int) []*GTx {
 			sp.Type, sp.To = types.TxType_GOVERNANCE, []byte(types.AergoSystem)
 			ids := []string{"GASPRICE", "STAKINGMIN", "NAMEPRICE", "BPCOUNT", "NOSUCH"}
 			id := ids[g.R.Intn(len(ids))]
+			if g.Ties {
+				id = []string{"STAKINGMIN", "NAMEPRICE"}[g.R.Intn(2)]
+			}
 			vals := map[string][]string{"GASPRICE": {"50000000000", "60000000000"}, "STAKINGMIN": {"10000000000000000000000", "9000000000000000000000"},
-				"NAMEPRICE": {"1000000000000000000", "2000000000000000000"}, "BPCOUNT": {"3", "4", "2"}, "NOSUCH": {"1"}}
+				"NAMEPRICE": {"1000000000000000000", "2000000000000000000", "20000000000000000000", "30000000000000000000"}, "BPCOUNT": {"3", "4", "2"}, "NOSUCH": {"1"}}
 			v := vals[id][g.R.Intn(len(vals[id]))]
+			if g.Ties && id == "NAMEPRICE" {
+				v = vals[id][2+g.R.Intn(2)] // the two candidates >= 2^64
+			}
 			sp.Payload = GovPayload("v1voteDAO", id, v)
 			sp.Amount = big.NewInt(0)
 			exp = "maybe"
@@ -260,6 +271,13 @@ func (g *Gen) Block(no uint64, n int) []*GTx {
 			nm := g.Names[g.R.Intn(len(g.Names))]
 			sp.Type, sp.To, sp.Amount = types.TxType_TRANSFER, []byte(nm), big.NewInt(int64(1+g.R.Intn(1000)))
 			desc = fmt.Sprintf("xfer-name a%d -> %s", i, nm)
+		case "setowner":
+			sp.Type, sp.To = types.TxType_GOVERNANCE, []byte(types.AergoName)
+			oi := g.pick()
+			sp.Payload = GovPayload("v1setOwner", g.acct(oi).B58())
+			sp.Amount = big.NewInt(0)
+			exp = "maybe"
+			desc = fmt.Sprintf("setowner a%d owner=a%d", i, oi)
 		case "gov-bad":
 			sp.Type, sp.To = types.TxType_GOVERNANCE, []byte(types.AergoSystem)
 			sp.Payload = GovPayload("v1nosuch")
@@ -372,7 +390,7 @@ func (g *Gen) Applied(cands []*GTx, included [][]byte, statuses []string) {
 
 // Clone copies the generator state (for a branch forking off) with a new PRNG.
 func (g *Gen) Clone(r *rand.Rand) *Gen {
-	n := &Gen{W: g.W, R: r, Nonce: map[int]uint64{}, NameOwner: map[string]int{}, Staked: map[int]bool{}, nameSeq: g.nameSeq, Kinds: g.Kinds, MaxAcct: g.MaxAcct}
+	n := &Gen{W: g.W, R: r, Nonce: map[int]uint64{}, NameOwner: map[string]int{}, Staked: map[int]bool{}, nameSeq: g.nameSeq, Kinds: g.Kinds, MaxAcct: g.MaxAcct, Ties: g.Ties}
 	for k, v := range g.Nonce {
 		n.Nonce[k] = v
 	}
